@@ -68,6 +68,15 @@ CHECKS = [
              'equals JW products; CAR enumerated for N=2,3.',
      'note': 'trusted: parity model (charge mod 2 on flagged components), JW reference in vlib/jw.py; two open known findings on ncon swaps '
              '(traced leg vs other tensor; partial crossing of parallel contracted legs)'},
+    {'id': 'C06',
+     'technique': 'Hypothesis-generated MPS/MPO expression trees evaluated by yastn and by NumPy on dense leaves (differential against a dense reference model)',
+     'text': 'Expression trees (add with amplitudes incl. 0/negative/complex, scalar ops, MPO@MPS, MPO@MPO, conj/transpose/H pairs, '
+             'reverse_sites, copies) over random / product / from-tensor leaves for every operator family x symmetry, N=1..6(7), every '
+             'admissible total charge, non-unit factors, all tensordot policies; the result, to_tensor, measure_overlap, measure_mpo (single, '
+             'sum of MPOs, periodic MPO), vdot dispatch, zipper and converged compression_ are compared with dense vectors/matrices (1e-10).',
+     'note': 'trusted: NumPy contraction of site tensors via to_numpy(legs=) and legs_union; default_fusion=meta is not exercised at the '
+             'MPS level (the MPS layer rejects meta-fused virtual legs, as the repository suite shows); conjugated/transposed objects are '
+             'combined only in signature-neutral pairs because conj()/T change leg signatures'},
     {'id': 'C13',
      'technique': 'Hypothesis-generated spectra and limit combinations checked with a validity predicate derived from the documented two-stage rule; error identity on generated factorisations',
      'text': 'Diagonal spectra with ties, zeros, one-element sectors over 1-5 sectors and every combination of D_total, D_block (scalar/dict), '
